@@ -130,11 +130,12 @@ def construct (cls : PyCls) (sh : Shape) : Except SErr Res :=
   else if cls.isUnyt then .ok ⟨cls, sh⟩
   else .error .TypeError
 
-/-- the end of `__array_ufunc__` (array.py, "if unit is None: … elif ufunc in (modf, divmod_): …
-    elif out_arr.shape == (): … elif out_arr.size == 1: … else: …") for one output of shape `sh` -/
-def wrapUp (unitNone multiOut : Bool) (retCls : PyCls) (sh : Shape) : Except SErr Res :=
+/-- array.py:`_wrap_ufunc_output` — the end of `__array_ufunc__` ("if unit is None: … else:
+    `shape == ()` → quantity; `size == 1` → array; quantity ret_class → array; else
+    `ret_class(out_arr, unit, bypass_validation=True)`") for one output of shape `sh`; the two
+    outputs of `modf`/`divmod` each go through the same cascade -/
+def wrapUp (unitNone : Bool) (retCls : PyCls) (sh : Shape) : Except SErr Res :=
   if unitNone then .ok ⟨.ndarray, sh⟩
-  else if multiOut then construct retCls sh
   else if sh = [] then construct .uquantity []
   else if size sh = 1 then construct .uarray sh
   else if retCls.isQuantity then construct .uarray sh
@@ -158,7 +159,7 @@ structure UfuncCall where
   method : UMethod
   /-- the unit rule returns `None` (comparisons, `isfinite`, `log`, …) -/
   unitNone : Bool
-  /-- `modf` / `divmod` -/
+  /-- `modf` / `divmod`: a tuple of two outputs, each wrapped like a single output -/
   multiOut : Bool
   /-- the coefficient split off by `as_coeff_unit` is 1 (else the result is `mul * out_arr`) -/
   mulIsOne : Bool
@@ -202,7 +203,7 @@ def ufuncResult (c : UfuncCall) : Except SErr Res :=
     match ufuncOutShape c.method (c.ops.map (·.2)) with
     | .error e => .error e
     | .ok sh =>
-      match wrapUp c.unitNone c.multiOut rc sh with
+      match wrapUp c.unitNone rc sh with
       | .error e => .error e
       | .ok r =>
         if c.mulIsOne || c.unitNone then .ok r
@@ -210,7 +211,7 @@ def ufuncResult (c : UfuncCall) : Except SErr Res :=
           -- `mul * out_arr`: float.__mul__ defers to out_arr.__rmul__, i.e. np.multiply(mul, out_arr)
           match binaryReturnClass .pyfloat r.cls with
           | .error e => .error e
-          | .ok rc' => wrapUp false false rc' r.shape
+          | .ok rc' => wrapUp false rc' r.shape
 
 /-- unit_object.py:`Unit.__mul__` / `__rmul__` with data `u` (not a Unit): `data = np.array(u,
     subok=True)`; `data.shape == ()` → `unyt_quantity`, else `unyt_array` (a copy either way);
@@ -290,7 +291,8 @@ def npGetitem {U} (nullUnit : U) (p : Obj U) (ixs : List Ix) (s' : Shape) : NpIt
 
 /-- array.py:`unyt_array.__getitem__`:
     `ret = super().__getitem__(item)`; `if getattr(ret, "shape", None) == (): ret =
-    unyt_quantity(ret, bypass_validation=True, name=self.name); ret.units = self.units` -/
+    unyt_quantity(ret, bypass_validation=True, name=self.name); ret.units = self.units`;
+    a non-scalar item that is still a `unyt_quantity` (the parent was one) is viewed as `unyt_array` -/
 def getitem {U} (nullUnit : U) (p : Obj U) (ixs : List Ix) : Except SErr (Obj U) :=
   match index p.shape ixs with
   | .error e => .error e
@@ -304,6 +306,10 @@ def getitem {U} (nullUnit : U) (p : Obj U) (ixs : List Ix) : Except SErr (Obj U)
       if o.shape = [] then
         let q : Obj U := ⟨.uquantity, [], ⟨o.md.units, p.md.name⟩⟩
         .ok { q with md := { q.md with units := p.md.units } }
+      else if o.cls.isQuantity then
+        -- `elif isinstance(ret, unyt_quantity): ret = ret.view(unyt_array)` (metadata via
+        -- `__array_finalize__` from `ret`)
+        .ok { o with cls := .uarray, md := arrayFinalize nullUnit (some o.md) }
       else .ok o
 
 /-- iteration (`ndarray.__iter__` → `self[i]` through the Python-level `__getitem__`):
@@ -422,7 +428,7 @@ def viewShape (s : Shape) : ViewOp → Except SErr Shape
   | .repeat_ n => .ok [size s * n]
 
 /-- `x.squeeze()`, `x.T`, `x.ravel()`, `x.reshape(t)`, … on a unyt object of class `cls`:
-    `unyt_quantity.reshape` is the only override -/
+    `unyt_quantity.reshape` and `unyt_array.squeeze` are the only overrides -/
 def viewOp (cls : PyCls) (s : Shape) (op : ViewOp) : Except SErr Res :=
   match op with
   | .reshape t =>
@@ -433,6 +439,13 @@ def viewOp (cls : PyCls) (s : Shape) (op : ViewOp) : Except SErr Res :=
     match expandDims s k with
     | .error e => .error e
     | .ok s' => .ok ⟨if cls.isQuantity then .uarray else cls, s'⟩
+  | .squeeze =>
+    -- array.py:`unyt_array.squeeze`: a 0-d result that is not yet a quantity is viewed as one
+    .ok ⟨if squeeze s = [] ∧ cls.isUnyt = true ∧ cls.isQuantity = false then .uquantity else cls, squeeze s⟩
+  | .squeezeAxis ax =>
+    match squeezeAxis s ax with
+    | .error e => .error e
+    | .ok s' => .ok ⟨if s' = [] ∧ cls.isUnyt = true ∧ cls.isQuantity = false then .uquantity else cls, s'⟩
   | op => match viewShape s op with | .error e => .error e | .ok s' => .ok ⟨cls, s'⟩
 
 /-! ### accessors: view or copy -/
